@@ -122,7 +122,10 @@ Print Assumptions elem_store_str_then_write.
    array-valued ones) change independently." ---- *)
 
 (* $h = $o copies nothing (no allocation, both variables hold the same object) and a write through
-   $h->p is the write through $o->p *)
+   $h->p is the write through $o->p.  (The last conjunct is a corollary of the two handles being equal:
+   it says that the model has ONE object there, nothing deeper; what ties it to the code is the
+   handle-copy route of the check, where the implementation's snapshots through both names are compared
+   with the model's after every mutation.) *)
 Theorem objects_by_handle : forall n st o h p co ch oa c a path act m,
   prop_name st o p co oa c a -> vlookup (env st) h = Some ch -> ch < next (hp st) ->
   ch <> co /\ ch <> oa /\ ch <> c /\ ch <> a /\ ~ In ch (spine (hp st) a) ->
@@ -160,7 +163,51 @@ Theorem ref_writes_through : forall h X j n v c,
 Proof. exact ref_store_in_place. Qed.
 Print Assumptions ref_writes_through.
 
+(* ---- audit follow-up -------------------------------------------------------------------------
+   The writes that go THROUGH a cell instead of replacing it - a by-reference parameter bound to an
+   element ( f($b[k]) with f(&$x) ), $r = &$b[k]; $r = z, usort($b, ...), array_walk($b, ...) - were
+   depth-1 leaks of the code (CloneArrayValue shares the cells) until ArrayValue.OwnSlot (/repo b95af9a,
+   5b57fff, 3f03ea0).  The depth-1 copy theorem, for every write that has the frame property: *)
+Theorem copy_then_any_frame_write : forall W, frame_write W -> forall n h a, flat_array h a ->
+  let h1 := fst (clone_array h a) in
+  let b := snd (clone_array h a) in
+  obs n h1 (VArr b) = obs n h1 (VArr a) /\
+  obs n (W h1 b) (VArr a) = obs n h1 (VArr a) /\
+  obs n (W h1 a) (VArr b) = obs n h1 (VArr b).
+Proof. exact copy_then_write_gen. Qed.
+(* ... and these writes have it (as every apply_mut has: apply_mut_frame_write) *)
+Theorem ref_store_is_frame_write : forall k z bind, frame_write (fun h X => ref_store h (VArr X) [k] z bind).
+Proof. exact ref_store_frame_write. Qed.
+Theorem usort_is_frame_write : frame_write usort_arr.
+Proof. exact usort_frame_write. Qed.
+Theorem array_walk_is_frame_write : forall z, frame_write (fun h X => walk_arr h X z).
+Proof. exact walk_frame_write. Qed.
+Print Assumptions copy_then_any_frame_write.
+Print Assumptions usort_is_frame_write.
+
+(* A write TAKES EFFECT (the frame theorems alone are satisfied by a write that does nothing).
+   Representation level: the written position holds a cell of the array's own with the new value, every
+   older cell is untouched.  Tree level (flat arrays, store through a reference): the snapshot of the
+   written name is the old snapshot with entry j replaced, under the same key. *)
+Theorem store_takes_effect : forall h X j n v c0, nth_error (spine h X) j = Some c0 ->
+  cref (cell_at h c0) = false ->
+  let h' := store_slot h X j n v in
+  spine h' X = set_nth j (next h) (spine h X) /\ cell_at h' (next h) = plain n v /\
+  (forall c, c < next h -> cell_at h' c = cell_at h c).
+Proof. exact store_slot_takes_effect. Qed.
+Theorem append_takes_effect : forall h X n v,
+  let h' := arr_append_cell h X n v in
+  spine h' X = (spine h X ++ [next h])%list /\ cell_at h' (next h) = plain n v /\
+  (forall c, c < next h -> cell_at h' c = cell_at h c).
+Proof. exact append_takes_effect. Qed.
+Theorem ref_store_snapshot : forall n h X k z bind j c0, flat_array h X ->
+  zval_pos h X k = Some j -> nth_error (spine h X) j = Some c0 ->
+  obs (S n) (ref_store h (VArr X) [k] z bind) (VArr X) =
+  TArr (set_nth j (key_of j (cname (cell_at h c0)), TInt z) (obs_items (obs n h) h (spine h X) 0)).
+Proof. exact ref_store_snapshot. Qed.
+Print Assumptions ref_store_snapshot.
+
 (* Nested shapes (depth >= 2): the full statement
      forall shape route m, observe_other (mutate m (copy route h)) = observe_other (copy route h)
    is FALSE of the code: inner arrays are shared pointers mutated in place (no copy-on-write);
-   Examples.nested_store_leaks_refuted is the witness; KNOWN_FINDINGS nested:mutation=*. *)
+   Examples.nested_store_leaks_refuted is the witness; KNOWN_FINDINGS nested:value:d<depth>:<mutation class>. *)
